@@ -2242,6 +2242,13 @@ fn gen_size_classes(s: &mut Session, r: &mut Rng, routine: &str, thorough: bool)
                 hists.push((base.clone(), vec![format!("bulk:{sd}:{n_lo},flush"), format!("{},flush", add(r)), add(r)]));
                 if thorough {
                     hists.push((base.clone(), vec![format!("bulk:{sd}:{},flush", n_lo + 1), add(r), format!("{},flush", add(r))]));
+                    if c == *consts.iter().max().unwrap_or(&0) {
+                        // the branch of write_index_to_file without alignment padding: a sorted section that
+                        // ends exactly on a multiple of the update-section alignment (0x28 + 18 n = 0 mod 64 KiB)
+                        if let Some(n) = (1..40_000usize).find(|n| (0x28 + 18 * n) % 0x1_0000 == 0) {
+                            hists.push((base.clone(), vec![format!("bulk:{sd}:{n},flush"), add(r)]));
+                        }
+                    }
                 }
             }
             "res" => {
@@ -2365,7 +2372,7 @@ fn main() {
     let tracer = init_tracer();
     let mut s = Session::new(&args.out);
     s.extra.insert("tracer".into(), serde_json::json!(tracer.desc));
-    s.rule = "one case = one crash state (cut position × un-synced-content variant, distinct directory images only) of one straced save, evaluated with the real loader; non-trivial = every such state (the loader ran on a directory that differs from the previous one); distinct = routine + script + old directory + cut + variant".into();
+    s.rule = "one case = one crash state (cut position × un-synced-content variant, distinct directory images only) of one traced save, evaluated with the real loader; non-trivial = every such state (the loader ran on a directory that differs from the previous one); distinct = routine + script + old directory + cut + variant. Histories: random short ones per routine (writes cut every 64/256 bytes) + the size-class family: for every size constant c of the save routines' source (literal products/shifts and named constants, read from /repo at run time) and of the environment (page, BufWriter, 64 KiB, 1 MiB, tokio file buffer) objects of c-1, c, c+1 bytes (disk cache) or entry counts that put the file just below/above c (index bucket, residency db, LRU table), writes cut at boundaries only".into();
     if let Some(p) = &args.replay {
         let lines = read_case(p);
         replay_file(&mut s, &lines, args.thorough());
